@@ -131,6 +131,8 @@ def listexpr(le, case, sp, lang):
         if lang == 'py':
             return '[%s] * (NF - 1)' % expr(le[1], case, sp, lang)
         return 'Array(Math.max(NF - 1, 0)).fill(%s)' % expr(le[1], case, sp, lang)
+    if k == 'lits':
+        return '[' + ', '.join(pystr(c, dq=sp.pick([False, True])) for c in le[1]) + ']'
     if k == 'empty':
         return '[]'
     raise ValueError(le)
